@@ -315,6 +315,23 @@ def check (p : Params) (tr : List Obs) (e : EndInfo) : List Viol :=
   vs ++ atEnd p s b (finalOf tr) e ++ (if e.crashed then ["process crashed"] else [])
 end C08
 
+-- ===================================================================== C10 (batch part)
+namespace C10b
+/-- a batch submitted to a queue whose Close() has returned is rejected as a whole: every item is
+    cancelled, so the batch's Wait returns and its stream is closed (no side effect, no waiter left) -/
+def check (p : Params) (tr : List Obs) (e : EndInfo) : List Viol :=
+  let (s, b, _) := foldCheck ({} : C08.St) (C08.onEvent p) tr
+  if !e.quiescent || e.crashed || b.crashed then [] else
+  b.openCalls.foldl (fun vs c => match c.2 with
+    | .gwait bid =>
+      let ks := lookupD [] s.batches bid
+      if !ks.isEmpty && ks.all (fun k => (b.job k).rejected) then vs ++ [s!"batch {bid} was submitted after Close() of its queue had returned, but Wait on it never returns (a rejected submission left a waiter behind)"] else vs
+    | .gcollect bid =>
+      let ks := lookupD [] s.batches bid
+      if !ks.isEmpty && ks.all (fun k => (b.job k).rejected) then vs ++ [s!"batch {bid} was submitted after Close() of its queue had returned, but its stream is never closed"] else vs
+    | _ => vs) []
+end C10b
+
 -- ===================================================================== C07 outcomes
 namespace C07
 def expectErr (oc k : Nat) (e : String) : Bool :=
@@ -351,7 +368,7 @@ def check (p : Params) (tr : List Obs) (e : EndInfo) : List Viol :=
 end C07
 
 def allChecks2 : List (String × (Params → List Obs → EndInfo → List Viol)) :=
-  allChecks ++ [("C04", C04.check), ("C15", C15.check), ("C14", C14.check), ("C18", C18.check), ("C08", C08.check), ("C07", C07.check)]
+  allChecks ++ [("C04", C04.check), ("C15", C15.check), ("C14", C14.check), ("C18", C18.check), ("C08", C08.check), ("C10", C10b.check), ("C07", C07.check)]
 
 end Spec
 end VarmqVerif
